@@ -466,6 +466,11 @@ def run_check(prop, tier, seed, only=None, budget=None, jobs_max=None):
         pp["wall_s"] = round(max(pp["wall_s"], r["wall_s"]), 2)
     for part, pp in per_part.items():
         pp["distinct_nontrivial"] = sum(1 for d in digs if d.startswith(part + ":"))
+    fin = getattr(mod, "finalize", None)
+    if fin is not None and not errors and not budget_exhausted:
+        fv, fd = fin(tier, classes)
+        violations += fv
+        exhaustive_domains += fd
     # ---- report
     known = load_known(prop)
     lines = []
